@@ -32,6 +32,7 @@ import (
 	"path/filepath"
 	"sort"
 	"strings"
+	"time"
 
 	"github.com/google/uuid"
 	"github.com/semafind/semadb/conversion"
@@ -333,6 +334,34 @@ func (e *forcedEnv) bucketDiff(a, b diskstore.DiskStore) []string {
 	return diffs
 }
 
+// settle lets every thread that has not finished run on, round after round, until all have finished
+// or a whole round changes nothing (then the remaining ones really wait for each other). The order of
+// events of a family is fixed before this point; settle only collects the end of the threads.
+func (c *Ctl) settle(out map[string]*stepOutcome, order ...string) {
+	for round := 0; round < 4; round++ {
+		progress := false
+		for _, n := range order {
+			if out[n].Kind == "done" {
+				continue
+			}
+			*out[n] = c.RunUntil(n, "", 0)
+			if out[n].Kind == "done" {
+				progress = true
+			}
+		}
+		all := true
+		for _, n := range order {
+			all = all && out[n].Kind == "done"
+		}
+		if all {
+			return
+		}
+		if !progress {
+			time.Sleep(30 * time.Millisecond)
+		}
+	}
+}
+
 func writerReport(name string, th *Thread, so stepOutcome, wantFail bool) (threadReport, bool) {
 	tr := threadReport{Thread: name, Class: "ok"}
 	switch {
@@ -400,9 +429,7 @@ func (e *forcedEnv) runCacheFamily(fam, variant string, n int, res *forcedResult
 		must(c.RunUntil("R", point, 1), "arrived")
 		sW := c.RunUntil("W", "", 0)
 		sR := c.RunUntil("R", "", 0)
-		if sW.Kind != "done" {
-			sW = c.RunUntil("W", "", 0)
-		}
+		c.settle(map[string]*stepOutcome{"R": &sR, "W": &sW}, "R", "W")
 		c.adopt = nil
 		wr, listed := writerReport("W", c.byName["W"], sW, false)
 		if wr.Class == "ok" {
@@ -452,9 +479,7 @@ func (e *forcedEnv) runCacheFamily(fam, variant string, n int, res *forcedResult
 		must(c.RunUntil("S", "With.rTryRLock", 1), "arrived")
 		s1 := c.RunUntil("W1", "", 0)
 		sS := c.RunUntil("S", "", 0)
-		if s1.Kind != "done" {
-			s1 = c.RunUntil("W1", "", 0)
-		}
+		c.settle(map[string]*stepOutcome{"W1": &s1, "S": &sS}, "W1", "S")
 		if w1, listed := writerReport("W1", c.byName["W1"], s1, true); listed {
 			res.Threads = append(res.Threads, w1)
 		}
@@ -544,11 +569,10 @@ func (e *forcedEnv) runCacheFamily(fam, variant string, n int, res *forcedResult
 		if third && !late {
 			sS = c.RunUntil("S", "", 0)
 		}
-		if s1.Kind != "done" {
-			s1 = c.RunUntil("W1", "", 0)
-		}
-		if s2.Kind != "done" {
-			s2 = c.RunUntil("W2", "", 0)
+		if third {
+			c.settle(map[string]*stepOutcome{"S": &sS, "W1": &s1, "W2": &s2}, "S", "W1", "W2")
+		} else {
+			c.settle(map[string]*stepOutcome{"W1": &s1, "W2": &s2}, "W1", "W2")
 		}
 		c.adopt = nil
 		w1, listed1 := writerReport("W1", c.byName["W1"], s1, fail)
